@@ -18,6 +18,7 @@ theorem tileHeight : (Generated.c18_tileHeight : Int) = env1 0 "sunlight.TileHei
 /-- `t.W == sunlight.TileWidth` is the model's `t.W = 256 = 1 << TileHeight` -/
 theorem tileWidth : (Generated.c18_tileWidth : Int) = 256 ∧ (Generated.c18_tileWidth : Int) = shl1 TilePath.tileHeight := by decide
 
+theorem level_guard : Generated.c18_level_guard = [levelGuardExpr.render ++ " -> continue"] := by decide
 theorem tileSize_expr : Generated.c18_tileSize_expr = tileSizeExpr.render := by decide
 theorem edge_guard : Generated.c18_edge_guard = [edgeGuardExpr.render ++ " -> continue"] := by decide
 theorem width_guard : Generated.c18_width_guard = ["t.W==sunlight.TileWidth -> return-error"] := by decide
@@ -31,7 +32,7 @@ theorem cleanDir_strings : Generated.c18_cleanDir_strings =
 theorem override_strings : Generated.c18_override_strings = ["strings.Cut(name, " ++ goLit dotPSlash ++ ")"] := by decide
 
 /-- order of effects and guards in `cleanDir`: list the directory; recurse into `x…`; cut `.p`; sibling in
-the listing; parse the sibling path; right-edge test; list the `.p` directory; per partial: parse, width
+the listing; parse the sibling path; level cut-off *before* the shift; right-edge test; list the `.p` directory; per partial: parse, width
 test, `overrideImmutable`, remove; finally remove the directory. Every error returns. -/
 theorem cleanDir_skel : Generated.c18_cleanDir_skel = [
   "call ctx.Err() onerr=fail guard=[]",
@@ -44,6 +45,8 @@ theorem cleanDir_skel : Generated.c18_cleanDir_skel = [
   "guard [!ok] -> continue",
   "call parseTilePath(strings.TrimSuffix(name, \".p\")) onerr=fail guard=[ range(entries)]",
   "call strings.TrimSuffix(name) onerr=fail guard=[ range(entries)]",
+  "guard [t.L > 6] -> continue",
+  "assign tileSize = int64(1) << (sunlight.TileHeight * (max(0, t.L) + 1)) guard=[ range(entries)]",
   "guard [t.N >= size/tileSize] -> continue",
   "call fs.ReadDir(root.FS()) onerr=fail guard=[ range(entries)]",
   "call parseTilePath(name) onerr=fail guard=[ range(entries) range(partials)]",
